@@ -1,0 +1,10 @@
+//go:build verif
+
+package meta
+
+import "github.com/influxdata/influxql"
+
+// VerifStatementPrivileges returns the privileges AuthorizeQuery checks for one statement.
+func VerifStatementPrivileges(stmt influxql.Statement) (influxql.ExecutionPrivileges, error) {
+	return statementPrivileges(stmt)
+}
